@@ -66,6 +66,7 @@ fn menu(sched: bool) -> Menu {
         connect_faults: vec![EADDRINUSE, ENETUNREACH, EHOSTUNREACH, ECONNREFUSED],
         recv_faults: vec![EAGAIN, EIO],
         select_faults: vec![EIO],
+        stream_faults: vec![EIO],
         ..Menu::default()
     }
 }
@@ -353,7 +354,7 @@ pub fn run(args: &Args) -> i32 {
     rep.set("horizon_hits", json!(a.stats.horizon_hits));
     rep.set("determinism_replays", json!(a.replays));
     rep.observe("faults_by_class_and_call", json!(a.by_class));
-    rep.set("rule", json!(format!("9 configurations x round limit {{1,2,3}} x path {{L1,L2}}: every socket call of the run (send_to, bind, connect, select, read/recv_from) is a fault position with the errno menu send{{EHOSTUNREACH,ENETUNREACH,EINVAL,EIO}} bind{{EADDRINUSE,EADDRNOTAVAIL,EACCES}} connect{{EADDRINUSE,ENETUNREACH,EHOSTUNREACH,ECONNREFUSED}} recv{{EAGAIN,EIO}} select{{EIO}}; ALL executions with <= {k} faults, alone and combined with one scheduling deviation (delay/loss). Oracle from the statement: no fatal fault => Ok and exactly n rounds with ids 0..n-1; transient => exactly that slot Failed; address-in-use (tcp) => slot Skipped, same TTL re-issued under the next sequence; fatal => run returns that error, no further round, error visible in the snapshot. distinct_nontrivial = distinct (published rounds, result, fault list) digests")));
+    rep.set("rule", json!(format!("9 configurations x round limit {{1,2,3}} x path {{L1,L2}}: every socket call of the run (send_to, bind, connect, select, read/recv_from, and for TCP probe sockets take_error, peer_addr, shutdown) is a fault position with the errno menu send{{EHOSTUNREACH,ENETUNREACH,EINVAL,EIO}} bind{{EADDRINUSE,EADDRNOTAVAIL,EACCES}} connect{{EADDRINUSE,ENETUNREACH,EHOSTUNREACH,ECONNREFUSED}} recv{{EAGAIN,EIO}} select{{EIO}} take_error/peer_addr/shutdown of a TCP probe socket{{EIO}}; ALL executions with <= {k} faults, alone and combined with one scheduling deviation (delay/loss). Oracle from the statement: no fatal fault => Ok and exactly n rounds with ids 0..n-1; transient => exactly that slot Failed; address-in-use (tcp) => slot Skipped, same TTL re-issued under the next sequence; fatal => run returns that error, no further round, error visible in the snapshot. distinct_nontrivial = distinct (published rounds, result, fault list) digests")));
     for s in a.samples {
         rep.sample(s);
     }
